@@ -70,16 +70,32 @@ CHECKS = [
   "Differential against the administrator on a real server: fixture data in a 6-namespace universe, restricted users (whitelist/blacklist groups stored at creation or by update), a catalogue of 66 console data endpoints of both API versions cross-checked against the routes discovered from console_config (an unclassified data route is exit 2), namespace spellings (omitted, empty, 'public', explicit), request variants. Reads must show no item of a forbidden namespace and only items the admin sees; writes naming a forbidden namespace must leave the admin's snapshot unchanged, permitted ones must behave as the admin's. A deterministic sweep of all endpoints x targets x spellings plus thousands of generated cases. 33 endpoint shapes from 8 root causes are recorded open known findings (keyed on endpoint + operation); anything else is a violation.",
   "One server per worker is reused and the fixture restored after every write case. Disabled groups and stale sessions after a privilege change are not decided.",
   "property-based testing (proptest) + exhaustive endpoint sweep with an admin-differential oracle on a real server"),
+ chk("C06", "E3 real 3-node clusters on loopback with nemesis", "exploration",
+  "Generated schedules on real 3-node clusters: one sequential writer per key issuing publish seq=1,2,.. (removes on two of four keys) over HTTP to generated nodes, interleaved with kill -9 / SIGSTOP of one node or of the leader, heal, pauses and - in template schedules - the deposed-leader sequence. After healing and the quiescence rule (same leader everywhere, last_applied == leader's last log index, with a trickle of sentinel writes): all nodes serve the same content per key, that content is the effect of the last acknowledged op or of a later attempt, and every acknowledged publish of a never-removed key is in every node's change history.",
+  "Message schedules between processes are sampled by real execution, not controlled; at most one node impaired at a time outside the template; HTTP writers only. Nodes are brought up one after the other (concurrent joins can leave a joiner NonVoter).",
+  "property-based testing (proptest-generated fault schedules) with history invariants (agreement, no acknowledged loss, ok => committed) on real clusters"),
+ chk("C10", "E1 real ConfigActor + BiStreamManage wired as the starter does", "exploration",
+  "Generated interleavings of long-poll registrations (1-4 keys, held md5 current/stale/empty, deadlines expired / short / far), gRPC-style connections (real BiStreamConn actors over an in-memory tonic stream), subscribe / unsubscribe / disconnect, publishes with different and identical content, routed temporary values, removes and timeout waits. Completeness oracle: stale-at-registration listeners are answered at once naming every stale key, a later change answers every pending listener of that key naming it, a pending long-poll is answered by its deadline + tick + slack (real clock only here), Subscribe reports stale items, every connected subscriber finds a ConfigChangeNotifyRequest in its response channel after each change.",
+  "The actor serialises messages, so the sequence order is the interleaving; HTTP/2 delivery and SDK reaction are not exercised. An applied publish that repeats the last applied content obliges no notification.",
+  "property-based testing (proptest): completeness model over generated listen/publish/remove/disconnect interleavings"),
+ chk("C16", "E1 route discovery + E3 real server (HTTP raw client, tonic gRPC client)", "exploration",
+  "Routes are discovered at run time from the real app_config ResourceMap (self-tested on sentinel routes). Complete matrix: in-scope routes x 6 methods x token carriers x token values (absent, empty, garbage, never issued, prefix of a valid one, expired, valid) on a real server with auth on; every gRPC request type found in the handler module plus near misses with/without session and cluster token; plus tens of thousands of generated path spellings (trailing/doubled slash, case, percent-encoding incl. '/', ';param', '/./', '/zz/..', static suffixes). Oracle: no valid token and a router path under /nacos/ or /rnacos/v1/ (minus the statement's exemptions) => the auth refusal, or no handler exists for the same request with a valid token; writes leave data unchanged; a valid token is never refused.",
+  "Exemptions read literally from the statement. Valid+invalid tokens in two carriers of one request are not generated. With no cluster token configured cluster requests are not asserted (the statement conditions on 'when one is configured').",
+  "exhaustive request matrix + property-based path-spelling generation (proptest) with a valid-token differential oracle on a real server"),
+ chk("C17", "E1 exhaustive role-table sweep + E3 real console", "fault_enumeration",
+  "(a) Exhaustive: every discovered console route instance x 7 methods x 337 role vectors through UserRole::match_url_by_roles: equals a literal reading of the role tables, visitor <= developer <= manager, visitor has no changing grant outside a justified list, developer is refused user management and transfer, multi-role = union, unknown roles get nothing, unlisted routes are granted to nobody. (b) Black box on the console port of a real server: users of each role created through the admin API, sessions none / empty / garbage / never issued / OpenAPI token / expired / valid over cookie and Token header, every route x method plus generated spellings: no valid session => NO_LOGIN (or no handler), a handler runs only if the tables grant the router path, granted canonical requests are not refused.",
+  "Console requests carry no parameters (an extractor 400 counts as 'handler ran'); pages and static assets are not judged in (b).",
+  "exhaustive enumeration of the role table + property-based spelling/session generation (proptest) against the role lattice on a real console"),
 ]
 
 ENGINES = [
- {"name": "E1", "path": "harness/src", "serves_properties": ["C20", "C02", "C03", "C05", "C09", "C11", "C12", "C14"],
+ {"name": "E1", "path": "harness/src", "serves_properties": ["C20", "C02", "C03", "C05", "C09", "C10", "C11", "C12", "C14", "C16", "C17"],
   "kind_free_text": "in-process proptest model-based / round-trip checks linked against /repo as a library (fresh actix System per phase for the file-store actor chain)"},
  {"name": "E5", "path": "interpose/journal.c + harness/src/c04.rs", "serves_properties": ["C04"],
   "kind_free_text": "LD_PRELOAD journal of file mutations in a recorder child; parent materialises every journal prefix and runs the real recovery code on it"},
  {"name": "E2", "path": "harness/src/node.rs", "serves_properties": ["C01", "C07", "C19"],
   "kind_free_text": "scripted full node (starter::config_factory + build_share_data) in a child process per phase: leader path through the real Raft, follower path through RaftStorage calls, restart = new process"},
- {"name": "E3", "path": "harness/src/cluster.rs, harness/src/c18/srv.rs", "serves_properties": ["C08", "C18"],
+ {"name": "E3", "path": "harness/src/cluster.rs, harness/src/c18/srv.rs", "serves_properties": ["C06", "C08", "C16", "C17", "C18"],
   "kind_free_text": "real rnacos-real processes (the shipped main.rs built from /repo's working tree) on loopback with HTTP clients; nemesis by pid (kill -9, restart)"},
 ]
 
